@@ -203,3 +203,35 @@ func TestC07ReplayBlockTxMarkedVerdict(t *testing.T) {
 		t.Errorf("REPRODUCED: verifyDAGTxs accepted a block transaction that failed ImmediateVerifyTx and whose marked-tx check answered (%v, %v, %v)", ok, rely, merr)
 	}
 }
+
+// TestC07ReplayUnsignedSpendScenarios: scenario corpus for the verification chain.
+// Alice spends BOB's output with only her own signature, in each of the shapes the
+// contracts on the chain distinguish (transaction version; with and without a forged
+// "spent by contract" claim in the transient write set of a transaction that carries
+// no contract request). Every one of them must be rejected by ImmediateVerifyTx.
+func TestC07ReplayUnsignedSpendScenarios(t *testing.T) {
+	for _, version := range []int32{1, 2, 3} {
+		for _, forgedClaim := range []bool{false, true} {
+			st, done := rpNewState(t)
+			raw := rpSpend(t, st, "bob", "alice", version)
+			if forgedClaim {
+				claimed, err := xmodel.MarshalMessages(raw.TxInputs)
+				if err != nil {
+					done()
+					t.Fatal(err)
+				}
+				raw.TxOutputsExt = []*protos.TxOutputExt{{
+					Bucket: xmodel.TransientBucket,
+					Key:    []byte("ContractUtxo.Inputs"),
+					Value:  claimed,
+				}}
+			}
+			tx := rpFinish(t, st, raw, "alice")
+			ok, err := st.ImmediateVerifyTx(tx, false)
+			if ok {
+				t.Errorf("REPRODUCED: v%d forgedClaim=%v: ImmediateVerifyTx accepted (err=%v) a transaction spending bob's output signed only by alice", version, forgedClaim, err)
+			}
+			done()
+		}
+	}
+}
